@@ -829,3 +829,81 @@ def _first_in_arm(body, o, start, crx, arg, what):
             return None
         bi = nx[0]
     return None
+
+
+# ------------------------------------------------------------------------------ WHO-READS-DISCR
+def discr_reads(P, enum_short):
+    """functions that branch on (or compare) the discriminant of a value of the enum: [(fn, ln)]"""
+    adt = P.adt(enum_short)
+    apath = adt['path']
+    out = []
+    for fn in P.fns.values():
+        for bi, b in enumerate(fn['blocks']):
+            if b.get('cu'):
+                continue
+            for st in b['st']:
+                rv = st['rv']
+                if rv['k'] != 'discr':
+                    continue
+                src = rv['pl']
+                fields = [e for e in src['p'] if e.startswith('.')]
+                is_enum = False
+                if not fields:
+                    is_enum = fn['locals'][src['l']]['head'] == 'adt:' + apath
+                else:
+                    owners = src.get('o') or []
+                    own = P.adts.get(owners[-1]) if owners else None
+                    if own:
+                        for v in own['variants']:
+                            for f in v['fields']:
+                                if '.' + f['name'] == fields[-1] and _last(f['ty']) == _last(apath):
+                                    is_enum = True
+                if is_enum:
+                    out.append((fn, st['ln']))
+    return out
+
+
+def who_reads_discr(P, enum_short, allowed):
+    allow = [re.compile(a) for a in allowed]
+    r = Res()
+    for fn, ln in discr_reads(P, enum_short):
+        oq = owner_qual(P, fn)
+        if fn.get('mac'):        # derive-generated (Debug, Clone, PartialEq, codec)
+            continue
+        r.site('%s @%s' % (oq, ln))
+        if not any(a.search(oq) for a in allow):
+            r.bad('reader=' + oq, '`%s` branches on %s: only %s may make behaviour depend on it' % (oq, enum_short, allowed), where=[ln])
+    return r
+
+
+# ------------------------------------------------------------------------------ struct-to-struct completeness
+def struct_map(P, fn_qual, target_short, mapping, src_root, exempt=None, variant=None):
+    """INSTALL (struct form): F builds `target` and every field of it is filled from the mapped origin.
+    mapping: {target field: origin regex} ; fields of target not in mapping and not in exempt are violations"""
+    fn = P.fn(fn_qual)
+    body = P.body(fn)
+    o = Origins(body)
+    tpath = P.adt(target_short)['path']
+    tf = P.fields(target_short, variant)
+    r = Res()
+    agg = None
+    for bi, b in enumerate(body.B):
+        for st in b['st']:
+            rv = st['rv']
+            if rv['k'] == 'agg' and rv['what'].startswith('adt:' + tpath + '::'):
+                agg = (rv, st['ln'])
+    if agg is None:
+        raise AnchorMissing('`%s` does not build a %s' % (fn_qual, target_short))
+    rv, ln = agg
+    got = {n: o.op_str(op) for n, op in zip(rv['names'], rv['ops'])}
+    for f in tf:
+        if exempt and f in exempt:
+            continue
+        if f not in mapping:
+            r.bad('unmapped-field:' + f, '%s has a field `%s` that the rule table of `%s` does not know: it is not checked to be '
+                  'saved / restored' % (target_short, f, fn['qual']), where=[ln])
+            continue
+        r.site('%s.%s <- %s' % (target_short, f, got.get(f, '<absent>')[:90]))
+        if not re.search(mapping[f], got.get(f, '')):
+            r.bad('miswired-field:' + f, 'in `%s` %s.%s is built from `%s`, expected origin /%s/' % (fn['qual'], target_short, f, got.get(f, ''), mapping[f]), where=[ln])
+    return r
